@@ -278,6 +278,57 @@ def _forms(repo, col):
     col.check(ok, R, fi, "zero-length sections get length 1.0", "pathlengths[i] = 1.0", "zero-length convention altered", node=fi.node)
     ok = "pathlengths = [np.sum(length_traced) for length_traced in each_length]" in src
     col.check(ok, R, fi, "branch length = sum of its segment lengths", "", "path length is not the sum of the segment lengths", node=fi.node)
+    # in-place clamping of the traced segment lengths must not precede the path-length computation
+    from sa.effects import Effects
+    E = Effects(repo)
+    exs = idx.expander(repo, fi)
+    body = fi.node.body
+    def stmt_index(pred):
+        for i_, st_ in enumerate(body):
+            for n_ in ast.walk(st_):
+                if pred(n_):
+                    return i_
+        return None
+    i_len = stmt_index(lambda n_: isinstance(n_, ast.Assign) and unparse(n_.targets[0]) == "pathlengths")
+    i_zero = stmt_index(lambda n_: isinstance(n_, ast.Compare) and "pathlen == 0.0" in unparse(n_))
+    mutators = []
+    for c in exs.calls:
+        if isinstance(c.func, ast.Name):
+            cf = E.resolve_func(c.func.id, fi)
+            if cf is None:
+                continue
+            params = cf.params
+            for e_ in E.summary(cf):
+                if e_.root.startswith("param:") and e_.root[6:] in params:
+                    k = params.index(e_.root[6:])
+                    if k < len(c.args) and unparse(c.args[k]) == "each_length":
+                        mutators.append((c, e_))
+    if i_len is None or i_zero is None:
+        raise AnalysisError("swc_to_jaxley: path-length computation / zero-length guard not found")
+    for c, e_ in mutators:
+        i_c = stmt_index(lambda n_: n_ is c)
+        col.check(i_c is not None and i_c > max(i_len, i_zero), R, fi,
+                  f"`{unparse(c.func)}` (clamps the traced segment lengths in place) runs after the path lengths are taken",
+                  "path lengths and the zero-length convention see the traced values",
+                  f"`{unparse(c.func)}(...)` mutates `each_length` in place ({e_.describe()[:80]}) and now runs before the path "
+                  f"lengths are summed: a zero-length section sums to 1e-8 instead of triggering the 1.0 um convention", node=c)
+    if not mutators:
+        col.ok(R, fi, "no callee mutates the traced segment lengths before they are summed", "", node=fi.node)
+    # neurite-type change is judged against the PARENT branch
+    rg = repo.func(CU, "_radius_generating_fns")
+    g = next((n for n in walk_no_nested(rg.node) if isinstance(n, ast.If) and "types[" in unparse(n.test)), None)
+    if g is None:
+        col.unk(R, rg, "type change between a branch and its parent", "guard not found", node=rg.node)
+    else:
+        cmps = [x for x in ast.walk(g.test) if isinstance(x, ast.Compare) and "types[" in unparse(x)]
+        t = unparse(cmps[0]).replace(" ", "") if cmps else ""
+        ok = t in ("types[i]!=types[parents[i]]", "types[parents[i]]!=types[i]")
+        wrong = bool(cmps) and not ok and "parents" not in t
+        col.add(R, rg, "first radius of a branch is replaced iff its type differs from its PARENT's type",
+                "DISCHARGED" if ok else ("VIOLATED" if wrong else "UNDECIDED"),
+                "types[i] != types[parents[i]]" if ok else
+                f"the type of branch i is compared with `{t}`: the neighbour in list order is not the parent branch, so radii at "
+                f"branch points of multi-neurite cells are not the interpolation of the traced radii", node=g)
     fi = repo.func(SW, "read_swc")
     src = unparse(fi.node)
     ok = "lengths_each = np.repeat(pathlengths, ncomp) / ncomp" in src and "cell.set('length', lengths_each)" in src
